@@ -42,7 +42,8 @@ FAMILIES = {
     "nested-if-newline": lambda d: "if a then b else\n" * d + "x\n",
     "nested-list-newline": lambda d: "[\n" * d + "1" + "\n]" * d + "\n",
     "nested-set-newline": lambda d: "{\n a =\n" * d + "1" + ";\n}" * d + "\n",
-    "long-file": lambda d: "{\n" + "".join(f"  a{i} = {i};\n" for i in range(d * 20)) + "}\n",
+    # (at most 220 lines: the installed py-tree-sitter corrupts memory for rows > 256, see DESIGN.md 9)
+    "long-file": lambda d: "{\n" + "".join(f"  a{i} = {i};\n" for i in range(d * 12)) + "}\n",
 }
 DOCUMENTED = ("ValueError", "NixSyntaxError")
 
@@ -91,6 +92,9 @@ def _cost(args):
 
     sys.setrecursionlimit(10000)
     gen = FAMILIES[name]
+    # stay inside what the installed py-tree-sitter handles safely (no Point coordinate above 256, see DESIGN.md 9)
+    while d > 2 and (gen(2 * d).count("\n") > 240 or max(len(x) for x in gen(2 * d).split("\n")) > 240):
+        d -= 1
     try:
         c1 = _count_calls(gen(d))
         c2 = _count_calls(gen(2 * d))
